@@ -31,7 +31,8 @@ NoMark == [kind |-> "none", at |-> 0, until |-> 0, ver |-> 0, live |-> FALSE]
 ObsInit(DK) ==
   [ req   |-> <<>>,
     ver   |-> <<>>,
-    pe    |-> [dk \in DK |-> 0],
+    pe    |-> [dk \in DK |-> 0],      \* purge calls covering <<disp,key>> that have returned
+    pb    |-> [dk \in DK |-> 0],      \* purge calls covering <<disp,key>> that have begun
     cur   |-> [dk \in DK |-> 0],
     mark  |-> [dk \in DK |-> NoMark],
     dirty |-> [dk \in DK |-> FALSE],   \* a purge could not delete the persisted copy (the store refused)
@@ -56,7 +57,7 @@ NewReq(k, d, m, pe0) ==
     ver |-> 0,                \* version delivered to the client (0: none)
     age |-> -1, ageNow |-> 0, \* Age computed for a hit and the clock value it was computed from
     startPe |-> pe0,          \* purges of this key completed before the request started
-    upPe |-> pe0,             \* purges of this key completed before the request went to the upstream
+    upPe |-> pe0,             \* purges of this key begun before the request went to the upstream
     disturbed |-> FALSE,      \* the key's entry was purged/evicted after this request looked it up
     loadBad |-> FALSE,        \* the store answered this request's lookup with anything but a well-formed record
     loaded |-> FALSE,         \* the store answered this request's lookup with a well-formed record ...
@@ -107,7 +108,7 @@ ODecide(o0, r, label, wait, now, v) ==
                            !.markKind = m.kind, !.markAt = m.at,
                            !.markUntil = m.until, !.markVer = m.ver]
       o1 == IF q.loaded /\ q.viaDirty /\ label = "hit" /\ v \in DOMAIN o.ver
-            THEN [o EXCEPT !.ver[v].fetchPe = o.pe[<<q.disp, q.key>>]] ELSE o
+            THEN [o EXCEPT !.ver[v].fetchPe = o.pb[<<q.disp, q.key>>]] ELSE o
       owners == {f \in DOMAIN o.req : f # r /\ o.req[f].ent = q.ent /\ o.req[f].label = "fetching"
                                        /\ o.req[f].phase \in {"decided", "upstream", "fetched"}}
   IN [o1 EXCEPT !.req[r] =
@@ -128,7 +129,7 @@ OAge(o0, r, age, now) ==
 OUpStart(o0, r) ==
   LET o == GC(o0) IN
   [o EXCEPT !.req[r].phase = "upstream", !.req[r].contacts = @ + 1,
-            !.req[r].upPe = o.pe[<<o.req[r].disp, o.req[r].key>>]]
+            !.req[r].upPe = o.pb[<<o.req[r].disp, o.req[r].key>>]]
 
 (* the upstream answered r; hasResp: a response came back; ttl: lifetime it grants (0: not shareable) *)
 OUpEnd(o0, r, hasResp, ttl) ==
@@ -191,9 +192,17 @@ ORemoved(o0, d, k) ==
   LET o == GC(o0) IN
   [o EXCEPT !.cur[<<d, k>>] = 0, !.mark[<<d, k>>] = NoMark, !.req = Disturb(o, d, k)]
 
-(* the purge of <<d,k>> completed (shard released); ok: the persisted copy is gone (deleted, or no store) *)
+(* the purge released the shard of <<d,k>>; ok: the persisted copy is gone (deleted, or no store) *)
 OPurged(o0, d, k, ok) ==
-  LET o == GC(o0) IN [o EXCEPT !.pe[<<d, k>>] = @ + 1, !.dirty[<<d, k>>] = ~ok]
+  LET o == GC(o0) IN [o EXCEPT !.dirty[<<d, k>>] = ~ok]
+
+(* the administrator's purge call for key k on the caches D (one named cache, or all of them) begins / returns *)
+OPurgeCall(o0, D, k) ==
+  LET o == GC(o0) IN
+  [o EXCEPT !.pb = [dk \in DOMAIN o.pb |-> IF dk[1] \in D /\ dk[2] = k THEN o.pb[dk] + 1 ELSE o.pb[dk]]]
+OPurgeReturn(o0, D, k) ==
+  LET o == GC(o0) IN
+  [o EXCEPT !.pe = [dk \in DOMAIN o.pe |-> IF dk[1] \in D /\ dk[2] = k THEN o.pe[dk] + 1 ELSE o.pe[dk]]]
 
 (* the LRU dropped the entry of <<d,k>> *)
 OEvicted(o0, d, k) ==
@@ -326,7 +335,8 @@ P_HfpLapses(o) ==
         => q.label = "fetching"
 
 (* C18: a request that starts after a purge of its key completed is never answered from something
-   whose fetch started before that purge completed -- unless the store refused the purge's delete and
+   whose fetch started before that purge call began (fetchPe counts the purge calls begun when the fetch
+   started, startPe the purge calls returned when the request started) -- unless the store refused the purge's delete and
    the request was answered from the record the store still returned *)
 P_PurgeEffective(o) ==
   \A r \in Done(o) :
